@@ -18,7 +18,15 @@ package ontid_test
 //   * a successful call on (or a registration of) an identity that was revoked
 //     earlier in the history is a violation, as is any later change of its
 //     storage;
-//   * a successful call must change only the storage of the identity it names.
+//   * a successful call must change only the storage of the identity it names;
+//   * once removeRecovery / removeController has SUCCEEDED (witnessed by an own
+//     authentication key), the reference model - not the storage - says that the
+//     identity has no recovery group / controller until a later successful
+//     setRecovery / updateRecovery (regIDWithController): a *ByRecovery /
+//     *ByController call that succeeds for the former recovery members / former
+//     controller while the contract's queries still report the removed
+//     configuration is a violation (unauth:<method>:removed-recovery /
+//     :removed-controller).
 //
 // A failed call cannot change storage here by construction (fresh transaction
 // cache, committed only on success — what HandleInvokeTransaction does), so
@@ -187,7 +195,14 @@ type c45St struct {
 	info  map[string]*c45Info
 	rev   map[string]string // identities revoked earlier in the history -> their dump right after revocation
 	old   map[string]common.Address // tracked legacy recovery address per identity
-	key   string
+	// reference model of removals: identity -> its recovery group / controller was
+	// removed by a successful removeRecovery / removeController and has not been
+	// configured again by a successful call since, yet the contract's queries
+	// still report one.  (A removal that the queries confirm needs no entry: the
+	// queries then describe the configuration.)  Immutable maps, copied on write.
+	recGone  map[string]bool
+	ctrlGone map[string]bool
+	key      string
 }
 
 func (s *c45St) clone() *c45St {
@@ -249,6 +264,12 @@ func (s *c45St) computeKey() {
 		if a, ok := s.old[n]; ok {
 			h.Write([]byte("|legacy-recovery:" + n))
 			h.Write(a[:])
+		}
+		if s.recGone[n] {
+			h.Write([]byte("|recovery-removed:" + n))
+		}
+		if s.ctrlGone[n] {
+			h.Write([]byte("|controller-removed:" + n))
 		}
 	}
 	s.key = string(h.Sum(nil))
@@ -473,6 +494,9 @@ func (s *c45St) authorised(ev *c45Ev) bool {
 	case c45famOldRec:
 		return oldOK
 	case c45famCtrl:
+		if s.ctrlGone[ev.target] {
+			return false // removed by the owner: whatever storage still says, nobody is the controller
+		}
 		switch c := inf.ctrl.(type) {
 		case string:
 			return s.satID(c, w)
@@ -481,6 +505,9 @@ func (s *c45St) authorised(ev *c45Ev) bool {
 		}
 		return false
 	case c45famRec:
+		if s.recGone[ev.target] {
+			return false // removed by the owner: the former members are strangers now
+		}
 		return inf.rec != nil && s.satGrp(inf.rec, w)
 	}
 	return false
@@ -503,6 +530,12 @@ func c45flatten(g *c45Grp, out []string) []string {
 }
 
 func (s *c45St) wclass(ev *c45Ev) string {
+	if ev.fam == c45famRec && s.recGone[ev.target] {
+		return "removed-recovery"
+	}
+	if ev.fam == c45famCtrl && s.ctrlGone[ev.target] {
+		return "removed-controller"
+	}
 	if len(ev.w) == 0 {
 		return "no-witness"
 	}
@@ -694,6 +727,56 @@ func (f *c45fx) step(s *c45St, ev *c45Ev) (vkey, detail string, ok bool) {
 		}
 		s.old = nold
 	}
+	// removals: the model follows the SUCCESSFUL call, not the storage
+	{
+		post := ninfo[ev.target]
+		setFlag := func(m map[string]bool, v bool) map[string]bool {
+			if m[ev.target] == v {
+				return m
+			}
+			n := map[string]bool{}
+			for k, x := range m {
+				n[k] = x
+			}
+			if v {
+				n[ev.target] = true
+			} else {
+				delete(n, ev.target)
+			}
+			return n
+		}
+		switch ev.method {
+		case "removeRecovery":
+			if inf.rec != nil {
+				if post.rec == nil {
+					r.Class("ok:removeRecovery:group-recovery-no-longer-reported")
+				} else {
+					r.Class("note:removeRecovery-succeeded-but-recovery-still-reported")
+				}
+			}
+			s.recGone = setFlag(s.recGone, true)
+		case "setRecovery", "updateRecovery":
+			s.recGone = setFlag(s.recGone, false)
+		case "removeController":
+			if inf.ctrl != nil {
+				if post.ctrl == nil {
+					r.Class("ok:removeController:controller-no-longer-reported")
+				} else {
+					r.Class("note:removeController-succeeded-but-controller-still-reported")
+				}
+			}
+			s.ctrlGone = setFlag(s.ctrlGone, true)
+		case "regIDWithController":
+			s.ctrlGone = setFlag(s.ctrlGone, false)
+		}
+		// a removal the queries confirm (or an identity that is gone) needs no model entry
+		if s.recGone[ev.target] && (!post.valid || post.rec == nil) {
+			s.recGone = setFlag(s.recGone, false)
+		}
+		if s.ctrlGone[ev.target] && (!post.valid || post.ctrl == nil) {
+			s.ctrlGone = setFlag(s.ctrlGone, false)
+		}
+	}
 	if ev.revoke {
 		nrev := map[string]string{}
 		for n, d := range s.rev {
@@ -877,7 +960,7 @@ func (f *c45fx) buildAlphabet(thorough bool) {
 		{true, "addAttributesByIndex", ",[p]", func(i int) []byte { return c45enc(X, attr, i) }},
 		{true, "removeAttributeByIndex", ",p", func(i int) []byte { return c45enc(X, "p", i) }},
 		{true, "setRecovery", ",2of(A,B)", func(i int) []byte { return c45enc(X, G2, i) }},
-		{false, "removeRecovery", "", func(i int) []byte { return c45enc(X, i) }},
+		{true, "removeRecovery", "", func(i int) []byte { return c45enc(X, i) }},
 		{false, "addService", ",sv", svc("sv", "t", "e1")},
 		{false, "updateService", ",sv", svc("sv", "t", "e2")},
 		{false, "removeService", ",sv", func(i int) []byte { return c45enc(X, "sv", i) }},
@@ -889,6 +972,12 @@ func (f *c45fx) buildAlphabet(thorough bool) {
 			for wi, w := range [][]string{{"k1"}, {"k2"}, {"k3"}, others} {
 				// quick: the named key's own address, plus the non-own signers for index 1
 				q := m.q && (wi == idx-1 || (idx == 1 && wi == 3))
+				// the removals of controller / recovery: every index x witness pairing in the
+				// quick tier too (in the roots with a controller the own keys sit at other
+				// indices than in the self-registered ones)
+				if m.method == "removeController" || m.method == "removeRecovery" {
+					q = true
+				}
 				add(f.ev(q, m.method, "X", c45famSelf, fmt.Sprintf("%s,signer#%d", m.desc, idx), m.mk(idx), w))
 			}
 		}
@@ -1154,7 +1243,8 @@ func TestVerif_C45(t *testing.T) {
 		res := env.Call(f.contract, "regIDWithPublicKey", c45enc(f.id[h[0]], f.pk[h[1]]), f.addr[h[1]])
 		r.Need(res.Err == nil, "registering helper identity %s: %v", h[0], res.Err)
 	}
-	base := &c45St{f: f, snap: env.Dump(f.contract), info: map[string]*c45Info{}, rev: map[string]string{}, old: map[string]common.Address{}}
+	base := &c45St{f: f, snap: env.Dump(f.contract), info: map[string]*c45Info{}, rev: map[string]string{}, old: map[string]common.Address{},
+		recGone: map[string]bool{}, ctrlGone: map[string]bool{}}
 	for _, n := range f.names {
 		base.info[n] = f.computeInfo(env, n)
 	}
@@ -1167,9 +1257,9 @@ func TestVerif_C45(t *testing.T) {
 	f.buildRoots(thorough)
 	f.maxDepth = r.Pick(3, 4)
 
-	r.Rule("state = storage of the ontid contract (+ set of identities revoked earlier); event = one registered method x arguments x witness set; " +
+	r.Rule("state = storage of the ontid contract (+ set of identities revoked earlier, + identities whose recovery / controller was removed by a successful call while the queries still report it); event = one registered method x arguments x witness set; " +
 		"classes: ok:<family> (succeeded with an authorised signer present), refused:no-authorised-signer:<family>, refused-though-authorised-signer-present:<family>, refused:identity-revoked, ...; " +
-		"violation = success without an authorised signer / on a revoked identity / writing another identity")
+		"violation = success without an authorised signer (a recovery group / controller removed by a successful removeRecovery / removeController is no authorised signer, whatever the storage says) / on a revoked identity / writing another identity")
 	r.Bound(fmt.Sprintf("%d roots x %d events (%d methods), BFS depth %d after the root prologue; identities X (target), A, B; keys k1..k3, a1,a2,b1; witness sets per family incl. empty, partial group, foreign, revoked and non-authentication keys",
 		len(f.roots), len(f.labels), f.nMethods(), f.maxDepth))
 	r.Assume("witnesses are injected as Transaction.SignedAddr (signature verification itself is C16/C17); a failed call cannot write because the transaction cache is only committed on success (as in HandleInvokeTransaction)")
@@ -1226,7 +1316,8 @@ func TestVerif_C45(t *testing.T) {
 	r.Sample(map[string]interface{}{"X": string(f.id["X"]), "A": string(f.id["A"]), "B": string(f.id["B"]), "first_events": f.labels[:4]})
 	for _, c := range []string{"ok:own-key", "ok:controller", "ok:recovery-group", "ok:own-key|legacy-recovery", "ok:register",
 		"refused:no-authorised-signer:own-key", "refused:no-authorised-signer:controller", "refused:no-authorised-signer:recovery-group",
-		"refused:identity-revoked"} {
+		"refused:identity-revoked",
+		"ok:removeRecovery:group-recovery-no-longer-reported", "ok:removeController:controller-no-longer-reported"} {
 		r.NeedClass(c)
 	}
 }
